@@ -89,12 +89,12 @@ var fuzzSteps = []StateOp{
 
 // decodeHead decodes engine, pages, function and preparation steps:
 //
-//	byte 0: bit0 engine, bits1-2 pages {1,2,0,1}
+//	byte 0: bit0 engine, bits1-2 pages {1,2,0,1}, bit3 capacity-from-max (guest max = pages+1)
 //	byte 1: function selector (mod 46)
 //	byte 2: number of preparation steps (mod 5), then one byte per step (mod len(fuzzSteps))
 func decodeHead(s *byteSrc) *Case {
 	h := s.next()
-	c := &Case{Engine: wz.Engines[h&1], Pages: []uint32{1, 2, 0, 1}[(h>>1)&3]}
+	c := &Case{Engine: wz.Engines[h&1], Pages: []uint32{1, 2, 0, 1}[(h>>1)&3], CapMax: h&8 != 0}
 	c.Fn = wasiabi.Table[int(s.next())%len(wasiabi.Table)].Name
 	n := int(s.next()) % 5
 	for i := 0; i < n; i++ {
